@@ -111,8 +111,12 @@ def families(tier):
                 out.append(dict(prop='C16', family='c16.stop', id=f'c16/stop-{sname}-t{tmo}-p{int(par)}-h{hist}-o{"".join(order)}', cfg=cfg, params=dict(state=sname, tmo=tmo),
                                 scn=dict(buses={b: dict(parallel=par, hist=hist) for b in names}, order=order, handlers=hs, main=main, actors=[], forwards=[], settle=1.5)))
     # a producer keeps re-feeding the bus (dispatch, await, short sleep) for 1.2 s while stop(timeout=0.3) is called: the graceful wait must give up at its deadline
-    for n, gap, hshape in itertools.product((12,), (0.1, 0.0), ('ret', 'pause')):
-        hs = [dict(bus='A', pat='X', name='hxA', prog=[('ret', 0)] if hshape == 'ret' else [('pause',)])]
+    for n, gap, hshape in itertools.product((12,), (0.1, 0.0), ('ret', 'pause', 'sleep')):
+        if hshape == 'sleep' and gap:
+            continue
+        # 'sleep': every event takes 0.1 s inside its handler and the next one is dispatched the moment it completes - the bus is never idle for
+        # longer than one callback burst, and every single idle wait of the graceful phase succeeds well within the timeout
+        hs = [dict(bus='A', pat='X', name='hxA', prog={'ret': [('ret', 0)], 'pause': [('pause',)], 'sleep': [('sleep', 0.1)]}[hshape])]
         producer = []
         for i in range(n):
             producer += [('disp', 'A', f'X{i}', 'await')] + ([('sleep', gap)] if gap else [])
